@@ -82,6 +82,8 @@ def main():
     results = {}
     if out.get("applies"):
         env2 = dict(os.environ)
+        # evidence/ and replay/ of a run against a changed tree do not belong to the registered checks
+        env2["VERIF_OUT"] = os.path.join(VERIF, "scratch", "mutant_out")
         if in_worktree:
             wt2 = tempfile.mkdtemp(prefix="mt-", dir="/tmp")
             os.rmdir(wt2)
